@@ -20,6 +20,7 @@ def parseSc (j : Json) : Except String Sc := do
     | "bool" => pure (.bool (← getBool j "v"))
     | "date" => pure (.date (← getStr j "v"))
     | "datetime" => pure (.datetime (← getStr j "v"))
+    | "decimal" => pure (.decimal (← getStr j "v"))
     | _ => throw s!"not a scalar: {t}"
 
 def parseVal (j : Json) : Except String Val := do
@@ -28,7 +29,6 @@ def parseVal (j : Json) : Except String Val := do
   | _ =>
     let t ← getStr j "t"
     match t with
-    | "decimal" => pure (.decimal (← getStr j "v"))
     | "ref" => pure (.row (← getStr j "table") (← getInt j "id"))
     | "slot" => pure (.slot (← getStr j "table"))
     | "other" => pure (.other (← getStr j "cls"))
@@ -68,10 +68,10 @@ def scToJson : Sc → Json
   | .bool b => Json.mkObj [("t", "bool"), ("v", Json.bool b)]
   | .date s => Json.mkObj [("t", "date"), ("v", Json.str s)]
   | .datetime s => Json.mkObj [("t", "datetime"), ("v", Json.str s)]
+  | .decimal s => Json.mkObj [("t", "decimal"), ("v", Json.str s)]
 
 def valToJson : Val → Json
   | .sc v => scToJson v
-  | .decimal s => Json.mkObj [("t", "decimal"), ("v", Json.str s)]
   | .row t i => Json.mkObj [("t", "ref"), ("table", Json.str t), ("id", Json.num (JsonNumber.fromInt i))]
   | .slot t => Json.mkObj [("t", "slot"), ("table", Json.str t)]
   | .other c => Json.mkObj [("t", "other"), ("cls", Json.str c)]
